@@ -14,6 +14,9 @@ correspondence: the real Falcon app (make_wsgi_app) driven with hand-built WSGI 
                 zstandard / zlib record every library call with the size asked for and the chunk returned.  The model
                 replays the recorded decoder behaviour and must reproduce status, delivered bytes, the exact
                 sequence of requested sizes and the number of decoded bytes materialised.
+interleaving  : one app, request A parked (profile hook on the C call, no interposition) just before its k-th bounded
+                decoder read while request B is served completely; each must get the verdict it gets when served alone
+                and, if valid and in-cap, reach the RPC layer byte-for-byte (per-request isolation of decode state).
 
 Readings adopted where the statement leaves room (a false alarm is worse than a missed nuance):
   * "on the wire" = the body length the WSGI layer declares (CONTENT_LENGTH).  waitress (the server serve_http
@@ -25,8 +28,11 @@ Readings adopted where the statement leaves room (a false alarm is worse than a 
     complete member / frame make the case unspecified (one-shot zstd ignores them, the zstd stream reader decodes
     on into them; only safety -- status set, materialisation bound, termination -- is demanded).  The demand on an undecodable body is on the
     observable the statement names: the final HTTP status must be 400 (413 is accepted when the frame declares,
-    or the decodable prefix already exceeds, the cap).  A prefix that reaches the RPC layer and is answered 400
-    there is tolerated by the oracle (python-zstandard decodes a frame declaring 0 bytes as b"" unchecked).
+    or the decodable prefix already exceeds, the cap).  An EMPTY or corrupt-frame result that reaches the RPC layer
+    and is answered 400 there is tolerated (python-zstandard decodes a frame declaring 0 bytes as b"" unchecked);
+    a NON-EMPTY decoded prefix of a truncated stream handed to the RPC layer is reported whatever the RPC layer
+    then answers (observable "bytes handed to the RPC layer"; the RPC layer's answer to the garbage changed 200 -> 400
+    with an unrelated upstream fix, the hand-over did not).
   * `identity` is a known coding that no configuration disables ("no transform"): it must reach the RPC layer.
   * header values with several codings ("gzip, zstd") are "unknown" codings (415); values containing non-ASCII
     or control whitespace are left to the model correspondence only.
@@ -142,6 +148,95 @@ def run(ctx: Any) -> None:
 
     def hdr_of(enc: str) -> str | None:
         return {"none": None, "identity": "identity", "gzip": "gzip", "zstd": "zstd", "zstd-nosize": "zstd"}[enc]
+
+    # ------------------------------------------------------------------ interleaving leg: per-request isolation of decode state
+    # One app, two requests: A is parked just before its k-th bounded decoder read (both chunk loops of _codec.py),
+    # B is served completely, A resumes.  Each request must get exactly the verdict it gets when served alone
+    # (the model -- and every theorem -- takes the decoder behaviour to be a function of the request's own body).
+    import hashlib as _hl
+
+    from harness import c17_interleave as il
+
+    def il_req(n: int, phrase: bytes) -> bytes:
+        # deterministic, highly compressible: the whole wire body fits into the replay file
+        return request_bytes("f", sch, {"data": (phrase * (n // len(phrase) + 1))[:n]})
+
+    IL_CAP, IL_SMALL_CAP = 1 << 20, 100000
+    il_apps = {IL_CAP: drv.build_app(IL_CAP, False)[0], IL_SMALL_CAP: drv.build_app(IL_SMALL_CAP, False)[0]}
+    p_big, p_big2 = il_req(150000, b"the quick brown fox jumps over the lazy dog. "), il_req(140000, b"pack my box with five dozen liquor jugs; ")
+    p_small, p_90k = il_req(300, b"sphinx of black quartz, judge my vow! "), il_req(90000, b"how vexingly quick daft zebras jump? ")
+
+    def il_body(kind: str) -> tuple[bytes, str | None, bytes | None]:
+        """(wire body, Content-Encoding, the client's uncompressed request or None when no delivery is due)"""
+        return {
+            "zstd-stream": lambda: (drv.zstd_nosize(p_big, 3), "zstd", p_big),
+            "zstd-stream2": lambda: (drv.zstd_nosize(p_big2, 1), "zstd", p_big2),
+            "zstd-stream-90k": lambda: (drv.zstd_nosize(p_90k, 3), "zstd", p_90k),
+            "zstd-declared": lambda: (drv.zstd_honest(p_small, 3), "zstd", p_small),
+            "zstd-declared-big": lambda: (drv.zstd_honest(p_big2, 3), "zstd", p_big2),
+            "zstd-garbage": lambda: (b"\x28\xb5\x2f\xfd" + b"\xff" * 40, "zstd", None),
+            "gzip": lambda: (drv.gzip_body(p_big, 6), "gzip", p_big),
+            "gzip2": lambda: (drv.gzip_body(p_big2, 1), "gzip", p_big2),
+            "gzip-small": lambda: (drv.gzip_body(p_small, 6), "gzip", p_small),
+            "identity": lambda: (p_small, "Identity", p_small),
+            "plain": lambda: (p_small, None, p_small),
+            "unknown": lambda: (p_small, "br", None),
+        }[kind]()
+
+    # (cap, A kind, B kind, k): A parks before its k-th (0-based) bounded read
+    schedules = [
+        (IL_CAP, "zstd-stream", "zstd-declared", 1), (IL_CAP, "zstd-stream", "zstd-stream2", 1), (IL_CAP, "zstd-stream", "zstd-declared", 0),
+        (IL_CAP, "zstd-stream", "zstd-stream2", 2), (IL_CAP, "zstd-stream", "gzip-small", 1), (IL_CAP, "zstd-stream", "identity", 1),
+        (IL_CAP, "zstd-stream", "unknown", 1), (IL_CAP, "zstd-stream", "zstd-garbage", 1), (IL_CAP, "gzip", "gzip2", 1),
+        (IL_CAP, "gzip", "zstd-declared", 1), (IL_CAP, "gzip", "plain", 0), (IL_CAP, "gzip", "zstd-stream2", 2),
+        (IL_SMALL_CAP, "zstd-stream", "zstd-declared", 1), (IL_SMALL_CAP, "zstd-stream-90k", "zstd-declared-big", 1),
+        (IL_SMALL_CAP, "gzip", "zstd-stream-90k", 1), (IL_SMALL_CAP, "zstd-stream-90k", "zstd-stream", 1),
+    ]
+    il_not_parked = 0
+    with il.spy_delivered():
+        for cap_i, ka, kb, k in schedules:
+            app_i = il_apps[cap_i]
+            (body_a, ce_a, pay_a), (body_b, ce_b, pay_b) = il_body(ka), il_body(kb)
+            solo_a = il.serve_alone(app_i, drv.environ(body_a, ce_a))
+            solo_b = il.serve_alone(app_i, drv.environ(body_b, ce_b))
+            out_a, out_b = il.serve_interleaved(app_i, drv.environ(body_a, ce_a), drv.environ(body_b, ce_b), k)
+            ctx.count("impl_runs", 4)
+            ctx.count("interleaved_schedules")
+            ctx.tally("interleave", f"A={ka} parked before read {k} | B={kb}")
+            ctx.case(["interleave", cap_i, ka, kb, k])
+            if solo_a.reads > k and not out_a.parked:
+                il_not_parked += 1
+
+            def desc(o: Any) -> dict[str, Any]:
+                return {"status": o.status, "refused_by_middleware": o.refused, "delivered_len": None if o.delivered is None else len(o.delivered),
+                        "delivered_sha1": None if o.delivered is None else _hl.sha1(o.delivered).hexdigest(), "rpc_error_header": o.rpc_error, "bounded_reads": o.reads, "detail": o.detail}
+
+            repl = {
+                "max_request_bytes": cap_i, "schedule": f"A is parked just before its bounded decoder read #{k}; B is served completely; A resumes",
+                "A": {"kind": ka, "content_encoding": ce_a, "body_hex": body_a.hex() if len(body_a) <= 4096 else body_a[:256].hex() + "...", "body_len": len(body_a),
+                      "body_sha1": _hl.sha1(body_a).hexdigest(), "uncompressed_len": None if pay_a is None else len(pay_a), "alone": desc(solo_a), "interleaved": desc(out_a)},
+                "B": {"kind": kb, "content_encoding": ce_b, "body_hex": body_b.hex() if len(body_b) <= 4096 else body_b[:256].hex() + "...", "body_len": len(body_b),
+                      "body_sha1": _hl.sha1(body_b).hexdigest(), "uncompressed_len": None if pay_b is None else len(pay_b), "alone": desc(solo_b), "interleaved": desc(out_b)},
+            }
+            for who, solo, out, pay in (("A", solo_a, out_a, pay_a), ("B", solo_b, out_b, pay_b)):
+                if out.verdict() != solo.verdict():
+                    ctx.violation(
+                        "concurrent-decode-not-isolated",
+                        f"request {who} gets HTTP {out.status}" + (" (refused by the middleware)" if out.refused else "") + f" when another request is decoded between two of A's bounded reads, "
+                        f"but HTTP {solo.status} when served alone: decode state is shared between requests",
+                        repl,
+                    )
+                # absolute demand of the statement on the interleaved run
+                if pay is not None and len(pay) <= cap_i and not (out.delivered == pay and not out.refused):
+                    ctx.violation(
+                        "concurrent-decodable-body-not-delivered",
+                        f"request {who} (valid, in-cap) did not reach the RPC layer byte-for-byte while another request was in flight: HTTP {out.status}",
+                        repl,
+                    )
+                if pay is not None and len(pay) > cap_i and not (out.refused and out.status == 413):
+                    ctx.violation("concurrent-over-cap-not-413", f"request {who} decodes over the cap but got HTTP {out.status} while another request was in flight", repl)
+    ctx.obligation("schedule:interleave-parked", "harness", il_not_parked == 0, f"{il_not_parked} schedules never reached their parking point")
+    ctx.sample({"interleave": "A = zstd stream frame decoding to 150 KB, parked before its 2nd 64 KiB read; B = small zstd request served meanwhile", "expected": "both reach the RPC layer byte-for-byte"})
 
     cases: list[dict[str, Any]] = []
 
@@ -377,7 +472,10 @@ def run(ctx: Any) -> None:
                     okst = obs.status == 400 or (evidence and refused and obs.status == 413)
                     if not refused and obs.status == 400:
                         ctx.count("undecodable_prefix_delivered_but_answered_400")
-                    if not okst:
+                    # a truncated stream whose decoded (non-empty) prefix is handed to the RPC layer is the same defect whether
+                    # the RPC layer then happens to answer 200+error marker or 400 for the unparseable prefix
+                    prefix_delivered = rk == "truncated" and not refused and len(obs.delivered) > 0
+                    if not okst or prefix_delivered:
                         which = coding if not (coding == "zstd" and declared is None) else "zstd-stream"
                         viol(
                             f"{rk}-{which}-not-refused",
@@ -387,7 +485,7 @@ def run(ctx: Any) -> None:
                         )
 
             # ---------------- the same case for the model
-            big = len(stream) > 1500 or any(s is not None and len(s[0]) > 1500 for s in tr.steps) or any(isinstance(x, tuple) and x[0] == "ok" and isinstance(x[1], bytes) and len(x[1]) > 1500 for x in (tr.one, tr.fl, tr.ra, tr.ra_fl))
+            big = len(stream) > 1500 or (obs.delivered is not None and len(obs.delivered) > 1500) or any(s is not None and len(s[0]) > 1500 for s in tr.steps) or any(isinstance(x, tuple) and x[0] == "ok" and isinstance(x[1], bytes) and len(x[1]) > 1500 for x in (tr.one, tr.fl, tr.ra, tr.ra_fl))
             B = (lambda b: cN(len(b))) if big else cbytes
 
             def ob(x: Any) -> str:
@@ -428,6 +526,9 @@ def run(ctx: Any) -> None:
             viol("model-impl-disagree", "implementation and model decide differently", m["case"], {"impl_status": m["status"], "impl_refused": m["refused"], "impl_calls": m["log"], "impl_materialised": m["mat"], "model": shown[-600:]})
 
     ctx.assumptions += [
+        "decoder behaviour is a function of the request's own body (the model's zdec / gdec): exercised by the interleaving leg "
+        "(16 two-request schedules parked at bounded-read boundaries, one thread inside a codec library at a time); true parallel "
+        "execution inside libzstd / zlib with the GIL released is not explored",
         "zstandard / zlib are not modelled: theorems quantify over arbitrary decoder behaviours; hypotheses used by the bound theorems "
         "(chunk <= requested size, one-shot output length = declared size, flush tail <= bound) are exercised on the real libraries by the correspondence run only",
         "Falcon BoundedStream semantics (content_length or 0) and waitress de-chunking (CONTENT_LENGTH = real length) are taken from the installed versions",
